@@ -247,9 +247,53 @@ pub fn run() -> Report {
     }
     conformance(&mut rep, &root);
     invocation_forms(&mut rep, &root);
+    large_row_sets(&mut rep, &root);
     directory_histories(&mut rep, &root);
     let _ = std::fs::remove_dir_all(&root);
     rep
+}
+
+/// "identical row sets for the unspent and balances dumps" on repeated runs - also when the dumps are larger than any batch,
+/// buffer or table an implementation is likely to use: 20 000 outputs to 20 000 distinct addresses (the rows leave a hash map
+/// in an order that depends on the process's hash seed), dumped under five hash seeds with 1 and 16 workers.
+fn large_row_sets(rep: &mut Report, root: &std::path::Path) {
+    let btc = coin("bitcoin");
+    let mut cb = ChainBuilder::with_genesis(btc);
+    let outs: Vec<refmodel::ser::TxOut> = (0..20_000u32).map(|i| {
+        let mut h = [0x3cu8; 20];
+        h[..4].copy_from_slice(&i.to_le_bytes());
+        refmodel::ser::TxOut { value: 1_000 + i as u64, script: refmodel::script::p2pkh(&h) }
+    }).collect();
+    cb.push(vec![Tx { version: 1, segwit: false, inputs: vec![TxIn::spend([0xe9; 32], 0)], outputs: outs, locktime: 0, wide: 0 }]);
+    let world = World::simple(btc, &cb.blocks, 0);
+    let wk = Worker::new(root, 97);
+    if let Err(m) = wk.materialise(&world) {
+        return rep.machinery(m);
+    }
+    for cbn in ["unspentcsvdump", "balances"] {
+        let mut reference: Option<(Option<i32>, BTreeMap<String, Vec<u8>>)> = None;
+        for (seed, threads) in [("1", 1u32), ("2", 16), ("6", 2), ("9", 16), ("17", 3)] {
+            let mut spec = RunSpec::new("bitcoin", cbn);
+            spec.threads = threads;
+            spec.env.push(("VERIF_DETRAND".into(), seed.into()));
+            let r = wk.run(&spec);
+            rep.states += 1;
+            rep.transitions += 1;
+            rep.nontrivial.insert(h8(format!("large-rows{}{}{}", cbn, seed, threads).as_bytes()));
+            rep.count("large-row-set-runs", 1);
+            let files: BTreeMap<String, Vec<u8>> = r.files.iter().map(|(k, v)| (k.clone(), sha256(&canon(k, v)).to_vec())).collect();
+            match &reference {
+                None => reference = Some((r.code, files)),
+                Some((code, want)) => {
+                    if *code != r.code || *want != files {
+                        rep.disagree("large-row-set-differs-between-runs", format!("{} over 20 000 outputs to 20 000 addresses: hash seed {} with {} workers gives another row set (or exit status {:?} vs {:?}) than hash seed 1 with 1 worker", cbn, seed, threads, r.code, code), json!({"kind": "e1-described", "case": format!("{} 20000 rows, hash seed {}, {} workers", cbn, seed, threads)}));
+                        break;
+                    }
+                }
+            }
+        }
+    }
+    wk.cleanup();
 }
 
 /// "... a function of the data directory and the options only": the same directory and options named in different ways and
